@@ -194,6 +194,10 @@ func runC09(c *ev.Ctx) {
 				} else if variant == 0 {
 					// lived through an unrelated epoch
 					wt := cons.Run(&cons.DAG{Cfg: &cons.GenCfg{Plans: cfg.Plans[ei:]}, Epochs: nil}, r, cons.RunOpts{Kinds: func(int) cons.OrderKind { return cons.OrdGen }, WarmReset: true})
+					if wt.Inst == nil {
+						viol(cons.DEventRejected, map[string]interface{}{"twin": "warm-up epoch", "detail": fmt.Sprint(wt.Discs)})
+						return
+					}
 					tw = wt.Inst
 					tw.Seal = policy
 				} else {
